@@ -84,12 +84,17 @@ public:
     int CheckPassword(const Mgr::Command &cmd);                               // REAL body
     // ASSUMED: the real PasswdGet walks Config.passwd_list (range-for over an SBufList: outside the front end) and
     // returns the passwd of the first line naming the action or "all", else nullptr.
+#ifndef MP_REAL_PASSWDGET
     char *PasswdGet(Mgr::ActionPasswordList *, const char *action)
     {
         g_asked_action = action;
         if (g_lookups < 1000) ++g_lookups;
         return g_configured;
     }
+#else
+    // units/mgrpasswdlist: the REAL body (src/cache_manager.cc) is compiled instead of the assumed one
+    char *PasswdGet(Mgr::ActionPasswordList *, const char *action);
+#endif
 };
 
 #endif
